@@ -10,13 +10,13 @@ git -C /repo worktree remove --force $WT 2>/dev/null
 git -C /repo worktree add -q --detach $WT HEAD || exit 2
 cd $WT
 TESTS=$(grep -ho '^func Test[A-Za-z0-9_]*' $SRC/*_test.go | sed 's/func //' | paste -sd'|')
-cp $SRC/*_test.go $WT/$PKG/
+mkdir -p $WT/$PKG; cp $SRC/*_test.go $WT/$PKG/
 if git apply --check $SRC/patch.diff 2>/dev/null; then git apply $SRC/patch.diff; else echo "patch needs 3-way"; git apply -3 $SRC/patch.diff || { echo "PATCH DOES NOT APPLY"; cd /; git -C /repo worktree remove --force $WT; exit 3; }; fi
 git diff --stat | tail -1
 go build ./... || echo "BUILD FAILS"
 echo "--- demo WITH change ($TESTS)"
 timeout 400 go test -count=1 -run "$TESTS" ./$PKG/ > /tmp/seed_with_$ID.log 2>&1; echo "exit=$? $(tail -1 /tmp/seed_with_$ID.log | cut -c1-120)"
-git checkout -q -- . 2>/dev/null; git reset -q --hard; cp $SRC/*_test.go $WT/$PKG/
+git checkout -q -- . 2>/dev/null; git reset -q --hard; mkdir -p $WT/$PKG; cp $SRC/*_test.go $WT/$PKG/
 echo "--- demo WITHOUT change"
 timeout 400 go test -count=1 -run "$TESTS" ./$PKG/ > /tmp/seed_without_$ID.log 2>&1; echo "exit=$? $(tail -1 /tmp/seed_without_$ID.log | cut -c1-120)"
 cd /; git -C /repo worktree remove --force $WT
